@@ -23,7 +23,7 @@ import re
 import sys
 import typing
 import zlib
-from enum import Enum
+from enum import Enum, IntEnum
 from datetime import timedelta
 from decimal import Decimal
 from fractions import Fraction
@@ -36,7 +36,7 @@ from ..lib.evidence import Report, machinery_failure
 common.check_repo_import()
 from jsonargparse import ArgumentError, ArgumentParser  # noqa: E402
 from jsonargparse._util import Path as JPath  # noqa: E402
-from jsonargparse.typing import Path_fr, get_registered_type, restricted_number_type, restricted_string_type  # noqa: E402
+from jsonargparse.typing import NotEmptyStr, Path_fr, PositiveInt, get_registered_type, restricted_number_type, restricted_string_type  # noqa: E402
 
 PID = "C02"
 KEY = "k"
@@ -53,6 +53,29 @@ class F(Enum):
 
 
 ENUMS = {"E": E, "F": F}
+
+
+# Round 4: typed objects that are instances of SUBCLASSES of int / str (value kind `sub` of spec/Types.tla)
+class MyInt(int):
+    pass
+
+
+class MyStr(str):
+    pass
+
+
+class IE(IntEnum):
+    X = 1
+    Y = 2
+
+
+class SE(str, Enum):
+    P = "abc"
+    Q = "1"
+
+
+SUB_CLASSES = {"MyInt": MyInt, "IntEnum": IE, "PositiveInt": PositiveInt, "MyStr": MyStr, "StrEnum": SE, "NotEmptyStr": NotEmptyStr}
+SUB_INV = {v: k for k, v in SUB_CLASSES.items()}
 LEAF = {"str": str, "int": int, "float": float, "bool": bool, "none": type(None), "any": Any}
 LEAF_INV = {v: k for k, v in LEAF.items()}
 
@@ -166,6 +189,8 @@ def gamma_val(x):
         return v[0] / v[1]
     if k == "enum":
         return ENUMS[v[0]][v[1]]
+    if k == "sub":  # an instance of a subclass of int / str: SUB_CLASSES[name](base value)
+        return SUB_CLASSES[v[0]](v[1]["v"])
     if k == "path":
         return Path_fr(v)
     if k == "reg":
@@ -238,6 +263,9 @@ def alpha_val(v):
         return {"k": "none", "v": 0}
     if isinstance(v, bool):
         return {"k": "bool", "v": v}
+    if type(v) in SUB_INV:  # an instance of one of the subclasses of int / str of the model: the class and the plain value it equals
+        plain = v.value if isinstance(v, Enum) else (int(v) if isinstance(v, int) else str.__str__(v))
+        return {"k": "sub", "v": [SUB_INV[type(v)], alpha_val(plain)]}
     if isinstance(v, Enum):
         if type(v) not in (E, F):
             raise NotAbstractable(repr(v))
@@ -334,6 +362,8 @@ def conforms_py(v, tp) -> bool:
     if tp is type(None):
         return v is None
     if tp in (int, float, str):  # an instance of a restricted sub-class (left behind by another Union member) still is one
+        if type(v) in SUB_INV:  # isinstance is what the property states (bool is the documented exception)
+            return isinstance(v, tp)
         return isinstance(v, tp) and not isinstance(v, (bool, Enum)) and (type(v) is tp or type(v) in RSTR_INV or type(v) in RNUM_INV)
     if tp is bool:
         return type(v) is tp
@@ -441,6 +471,50 @@ def _work(job):
         cparser = make_parser(tp, d, key=clash_key(t))
         res["clash"] = [run_one(cparser, tp, x, "obj", key=clash_key(t)) for x in xs]
     return res
+
+
+def run_link(tp, x):
+    """the typed object x (a PositiveInt) reaches the key through a parse-link: --src is a PositiveInt option, --k has the declared
+    type, link_arguments('src', 'k'); the final validation pass of parse_args sees the object"""
+    try:
+        parser = ArgumentParser(exit_on_error=False)
+        parser.add_argument("--src", type=PositiveInt)
+        parser.add_argument("--" + KEY, type=tp)
+        parser.link_arguments("src", KEY)
+        cfg = parser.parse_args([f"--src={x['v'][1]['v']}"])
+    except ArgumentError:
+        return {"ok": False, "v": {"k": "none", "v": 0}, "exc": "", "pyok": True}
+    except Exception as ex:
+        return {"ok": False, "v": {"k": "none", "v": 0}, "exc": type(ex).__name__, "pyok": True}
+    val = cfg[KEY]
+    if type(cfg["src"]) is not PositiveInt:
+        return {"ok": True, "v": {"k": "other", "v": "the source is not a PositiveInt object"}, "exc": "", "pyok": True}
+    try:
+        av = alpha_val(val)
+    except NotAbstractable as ex:
+        av = {"k": "other", "v": str(ex)}
+    return {"ok": True, "v": av, "exc": "", "pyok": val is None or conforms_py(val, tp)}
+
+
+def _work_obj(job):
+    """pool worker for the cases of MC_TypesObj: one type term, many inputs; per input the channels obj (+ arg for a text) and,
+    where TLC predicted it, link"""
+    t, d, xs, links = job
+    try:
+        tp = gamma_type(t)
+        back = alpha_type(tp)
+    except Exception as ex:
+        return {"t": t, "error": f"{type(ex).__name__}: {ex}"}
+    if canon(back) != canon(t):
+        return {"t": t, "error": "typing changed the hint: " + canon(back)}
+    try:
+        parser = make_parser(tp, d)
+    except Exception as ex:
+        return {"t": t, "error": f"add_argument: {type(ex).__name__}: {ex}"}
+    out = []
+    for x, lk in zip(xs, links):
+        out.append([run_one(parser, tp, x, ch) for ch in channels(x)] + ([run_link(tp, x)] if lk else []))
+    return {"t": t, "out": out}
 
 
 def _enter(workdir):
@@ -676,7 +750,7 @@ def depth_of(t) -> int:
 
 
 # ---------------------------------------------------------------- verdicts
-DEV_KEYS = {"origNested": "union-orig-nested", "inPlace": "union-in-place", "validateLeak": "validate-leaks-into-result", "setListing": "set-listing-order", "litEq": "literal-eq",
+DEV_KEYS = {"rawLink": "link-target-raw", "origNested": "union-orig-nested", "inPlace": "union-in-place", "validateLeak": "validate-leaks-into-result", "setListing": "set-listing-order", "litEq": "literal-eq",
             "dictKey": "dict-key-unchecked", "serCollision": "set-written-with-duplicates"}
 
 
@@ -745,7 +819,35 @@ def report_unbuildable(rep, t, error):
                   {"t": t, "error": error, "python": f"ArgumentParser().add_argument('--k', type={type_str(t)})"})
 
 
+def has_sub(x) -> bool:
+    if x["k"] == "sub":
+        return True
+    if x["k"] in ("list", "tuple", "set", "bag"):
+        return any(has_sub(e) for e in x["v"])
+    if x["k"] == "dict":
+        return any(has_sub(p[1]) for p in x["v"])
+    return False
+
+
+def show_obj(x) -> str:
+    """Python text of a value that holds instances of the subclasses of the model (their repr does not name the class)"""
+    k, v = x["k"], x["v"]
+    if k == "sub":
+        return {"IntEnum": "IE", "StrEnum": "SE"}.get(v[0], v[0]) + f"({v[1]['v']!r})"
+    if k in ("list", "bag"):
+        return "[" + ", ".join(show_obj(e) for e in v) + "]"
+    if k == "tuple":
+        return "(" + ", ".join(show_obj(e) for e in v) + ("," if len(v) == 1 else "") + ")"
+    if k == "set":
+        return "{" + ", ".join(show_obj(e) for e in v) + "}" if v else "set()"
+    if k == "dict":
+        return "{" + ", ".join(show_obj(a) + ": " + show_obj(b) for a, b in v) + "}"
+    return gamma_repr(x)
+
+
 def gamma_repr(x) -> str:
+    if has_sub(x):
+        return show_obj(x)
     try:
         if x["k"] == "path":
             return f"Path_fr({x['v']!r})"
@@ -757,6 +859,9 @@ def gamma_repr(x) -> str:
 
 
 def python_repro(t, x, chan, d=None) -> str:
+    if chan == "link":
+        return (f"p = ArgumentParser(exit_on_error=False); p.add_argument('--src', type=PositiveInt); p.add_argument('--k', type={type_str(t)}); "
+                f"p.link_arguments('src', 'k'); p.parse_args(['--src={x['v'][1]['v']}']).k")
     call = f"p.parse_object({{'k': {gamma_repr(x)}}})" if chan == "obj" else f"p.parse_args(['--k=' + {x['v']!r}])"
     dflt = f", default={gamma_repr(d)}" if d is not None and d["k"] != "none" else ""
     return f"p = ArgumentParser(exit_on_error=False); p.add_argument('--k', type={type_str(t)}{dflt}); {call}"
@@ -957,6 +1062,62 @@ def main(argv):
     stats["permutation_groups_with_different_real_verdicts"] = sum(1 for g in pgroups if len(set(g.values())) > 1)
     stats["model_cases_with_a_default"] = sum(1 for c in cases if c["d"]["k"] != "none")
 
+    # ---- Round 4: typed objects that are instances of subclasses of the declared leaf type (parse_object, parse-link) and
+    #      deeper compositions: a second bounded instance (MC_TypesObj), every case replayed like the ones above
+    ocfg = f"MC_TypesObj_{tier}"
+    omc = tlc.run("MC_TypesObj", ocfg, workers=workers, timeout=3000, heap="12g")
+    rep.add_tlc(ocfg, omc)
+    if omc.errors:
+        if omc.violated:
+            rep.violation("model-obj:" + ",".join(sorted(set(omc.violated))), f"TLC: invariant {sorted(set(omc.violated))} violated in the bounded model MC_TypesObj",
+                          {"tlc_errors": omc.errors[:5], "counterexample": omc.cex[:4000]})
+            return rep.finish()
+        machinery_failure(PID, "TLC failed on MC_TypesObj:\n" + omc.stdout[-3000:])
+    otypes = [p["type"] for p in omc.printed if isinstance(p, dict) and "type" in p]
+    ocases = [p for p in omc.printed if isinstance(p, dict) and "acc" in p]
+    if not ocases or len(otypes) + len(ocases) != omc.distinct:
+        machinery_failure(PID, f"TLC printed {len(otypes)} types + {len(ocases)} cases for {omc.distinct} distinct states of MC_TypesObj")
+    ocases.sort(key=lambda c: (canon(c["t"]), canon(norm(c["x"]))))
+    oby = {}
+    for c in ocases:
+        oby.setdefault(canon(c["t"]), []).append(c)
+    ogroups = sorted(oby.items())
+    ojobs = [(cs[0]["t"], NONE, [c["x"] for c in cs], ["lok" in c for c in cs]) for _, cs in ogroups]
+    ostats = {"cases": len(ocases), "types": len(otypes), "with_typed_object": 0, "typed_object_accepted": 0, "typed_object_conforming_instance": 0,
+              "link_executions": 0, "link_accepted": 0, "deep_cases": 0, "executions": 0}
+    for (tkey, cs), r in zip(ogroups, run_jobs(ojobs, work=_work_obj)):
+        if "error" in r:
+            stats["unbuildable_types"] += 1
+            report_unbuildable(rep, cs[0]["t"], r["error"])
+            continue
+        for c, outs in zip(cs, r["out"]):
+            chans = channels(c["x"]) + (["link"] if "lok" in c else [])
+            sub = has_sub(c["x"])
+            ostats["with_typed_object"] += sub
+            ostats["typed_object_accepted"] += sub and c["acc"]
+            ostats["deep_cases"] += depth_of(c["t"]) >= 3
+            for ch, real in zip(chans, outs):
+                n_exec += 1
+                ostats["executions"] += 1
+                if real["exc"]:
+                    stats["non_argument_errors"] += 1
+                if ch == "link":  # the prediction for a linked value: AlgLink (the value stays the object it is)
+                    ostats["link_executions"] += 1
+                    ostats["link_accepted"] += real["ok"]
+                    classify_replay(rep, {**c, "aok": c["lok"], "av": c["lv"], "dev": c["ldev"]}, ch, real, stats)
+                else:
+                    classify_replay(rep, c, ch, real, stats)
+                    verdicts.setdefault((perm_class(c["t"]), canon(NONE), canon(norm(c["x"])), ch), {})[tkey] = real["ok"]
+                rep.note_nontrivial(tkey + "|obj|" + canon(norm(c["x"])) + "|" + ch)
+            if sub and c["acc"] and len([s_ for s_ in rep.samples if "typed_object" in s_]) < 2 and c["t"]["k"] != "int":
+                rep.sample({"typed_object": True, "type": type_str(c["t"]), "input": gamma_repr(c["x"]), "python": python_repro(c["t"], c["x"], "obj"),
+                            "ref_accepts": c["acc"], "ref_results": c["res"], "alg_predicts": c["av"], "observed": outs[0]})
+    pgroups = [g for g in verdicts.values() if len(g) > 1]
+    stats["permutation_groups_compared"] = len(pgroups)
+    stats["permutation_groups_with_different_real_verdicts"] = sum(1 for g in pgroups if len(set(g.values())) > 1)
+    rep.extra["typed_objects_and_deep_compositions"] = ostats
+    cases_all = cases + ocases
+
     # ---- TRACE: random deeper type hints (some with a default), validated by TLC
     ntypes, per_type = (160, 12) if tier == "quick" else (2500, 20)
     rjobs = random_cases(rnd, ntypes, per_type)
@@ -1018,7 +1179,7 @@ def main(argv):
 
     finish_stats(rep)
     rep.traces = n_exec + len(obs)
-    rep.evaluations = len(cases) + len(obs)
+    rep.evaluations = len(cases_all) + len(obs)
     rep.extra.update(stats)
     rep.extra["model_types"] = len(types)
     rep.extra["model_cases"] = len(cases)
